@@ -12,20 +12,20 @@ THEOREMS = [
     "Mpc.IoArg.testBit_writeBits",
     "Mpc.IoArg.testBit_lowBits",
     # textual form = Go-value form
-    "Mpc.C13_int_wire_bits_parse_eq_set_partial",
-    "Mpc.C13_int_wire_bits_parse_ne_set_witness",
+    "Mpc.C13_int_wire_bits_parse_eq_set",
+    "Mpc.C13_old_setInt_witness",
     "Mpc.C13_parse_array_elements",
     "Mpc.C13_set_bytes_elements",
     "Mpc.C13_array_wire_bits_parse_eq_set",
     # members
     "Mpc.C13_parse_compound_wires",
     "Mpc.C13_parse_member_independent",
-    "Mpc.C13_set_compound_wires_partial",
-    "Mpc.C13_set_member_independent_partial",
-    "Mpc.C13_compound_wire_bits_parse_eq_set_partial",
+    "Mpc.C13_set_compound_wires",
+    "Mpc.C13_set_member_independent",
+    "Mpc.C13_compound_wire_bits_parse_eq_set",
     "Mpc.C13_member_agreement_int",
     "Mpc.C13_member_agreement_bool",
-    "Mpc.C13_set_member_disturbed_witness",
+    "Mpc.C13_set_spill_case_now_correct",
     # sizes
     "Mpc.C13_bitLen_spec",
     "Mpc.C13_sizes_agree_partial",
@@ -41,7 +41,7 @@ THEOREMS = [
     "Mpc.C13_result_inverts_array_int",
     "Mpc.C13_result_pure",
     "Mpc.C13_old_result_not_pure_witness",
-    "Mpc.C13_result_nested_array_panics",
+    "Mpc.C13_result_nested_array_decodes",
     "Mpc.C13_split_spec",
 ]
 
@@ -60,12 +60,17 @@ def facts(ctx):
     body = vlib.go_func_body("circuit/ioarg.go", r"bitLen\(")
     ctx.fact("bitLen loop header", re.findall(r"for i := 63; i > (\d+); i--", body or ""), ["0"])
     body = vlib.go_func_body("circuit/ioarg.go", r"setInt\(")
-    ctx.fact("setInt writes a fixed 64-bit window", re.findall(r"for i := 0; i < (\w+); i\+\+", body or ""), ["64"])
-    ctx.fact("setInt advances by t.Bits", bool(re.search(r"return ofs \+ int\(t\.Bits\), nil", body or "")), True)
+    ctx.fact("setInt writes exactly t.Bits bits", re.findall(r"for i := 0; i < (\w+); i\+\+", body or ""), ["bits"])
+    ctx.fact("setInt: bits is t.Bits, sign extension above bit 63, advances by bits",
+             [bool(re.search(r"bits := int\(t\.Bits\)", body or "")),
+              bool(re.search(r"if i < 64 \{\s*bit = uint\(\(ival >> i\) & 0x1\)\s*\} else if negative \{\s*bit = 1", body or "")),
+              bool(re.search(r"return ofs \+ bits, nil", body or ""))], [True, True, True])
     body = vlib.go_func_body("result.go", r"Result\(")
     ctx.fact("Result's TInt branch computes the sign fix into a fresh big.Int",
              bool(re.search(r"result = new\(big\.Int\)\.Sub\(tmp, result\)\s*\n\s*result\.Neg\(result\)", body or ""))
              and not re.search(r"^\s*result\.Sub\(tmp, result\)", body or "", flags=re.M), True)
+    ctx.fact("Result's element-type default branch asks Result for the element's Go type",
+             bool(re.search(r"default:\s*(//[^\n]*\n\s*)*elementType = reflect\.TypeOf\(Result\(new\(big\.Int\),", body or "")), True)
     src = vlib.repo_file("circuit/ioarg.go")
     ctx.fact("reHexInput pattern", re.findall(r"reHexInput = regexp\.MustCompilePOSIX\(`([^`]*)`\)", src),
              ["^([[:digit:]]+)x([[:xdigit:]]*)$"])
@@ -104,7 +109,7 @@ def run(ctx):
                 "spell_hex", "spell_dec", "spell_bin", "arrspell_hex", "arrspell_dec", "independence_parse",
                 "independence_set", "result_array_len0", "result_string", "op_flow", "op_split", "op_inst", "op_ty",
                 "any_parse_err_panic", "any_set_err_toomany", "sizes_class_two-or-three", "sizes_class_negative",
-                "result_nil_outputs", "corpus_witnesses", "corpus_string_bytes"]
+                "result_nil_outputs", "result_nested_roundtrip", "corpus_witnesses", "corpus_string_bytes"]
         missing = [k for k in need if not c.get(k)]
         ctx.oblige("generator reached 0-length arrays, short literals, compounds, wide negative ints, hex/decimal/"
                    "binary spellings, error and panic paths", not missing, "not reached: %s" % missing)
@@ -129,9 +134,9 @@ def run(ctx):
         "Theorems (Props/C13.lean) over the executable Lean model of IOArg.Parse/Set, Sizes/InputSizes/bitLen, IO.Split "
         "and mpc.Result: Parse puts exactly the w-bit groups of the written number on the element wires in order and "
         "pads short literals with zeros; a compound's wires are the concatenation of its members' wires at the running "
-        "offset (member independence); Set equals that encoding except for two proven-and-replayed defects; Sizes = "
-        "InputSizes = bit length except at 2, 3 and negative values; Result inverts the encoding for every width, is "
-        "pure except for negative ints (mutation witness). Tie: the same op lines are run on the real Go functions and "
+        "offset (member independence); Set equals that encoding for every value of an int8..uint64 kind, bool, []byte, nil; Sizes = "
+        "InputSizes = bit length for all non-negative values (negative values: known finding); Result inverts the "
+        "encoding for every width, decodes nested arrays, and is pure and repeatable for every type and cell content. Tie: the same op lines are run on the real Go functions and "
         "on the compiled model and compared line by line (values, error kinds, panics). Oracle: the harness's own "
         "reference encoder (two's complement little-endian per element, declaration order) against the wires of the "
         "real Parse and Set, member perturbation, Sizes vs InputSizes vs written width, decode(encode v) = v, "
